@@ -10,7 +10,8 @@
 (* Clauses: status, headers, server-headers-only, body-order, body-bytes,  *)
 (* body-length (incl. suppression exactly for HEAD/1xx/204/304), end-once, *)
 (* end-early, flushed, end-missing, trailers-gated, well-formed,           *)
-(* send-raised (a valid send on a healthy connection raised).              *)
+(* send-raised (a valid send on a healthy connection raised), response-cut *)
+(* (the server closed the connection under a response in progress).        *)
 (***************************************************************************)
 EXTENDS Obs
 
@@ -48,6 +49,17 @@ Clauses(o, ev, o2) ==
                     IF Req(o, a).ver = "2" /\ Has(Req(o, a).c, "te") /\ Req(o, a).c.te THEN <<>>
                     ELSE <<F("trailers-gated", a)>>
               [] OTHER -> <<>>
+      [] ev.e = "t_close" ->
+            \* the server closed under a response the application was still producing, although
+            \* nothing had gone wrong (no client error, peer present, no shutdown, application healthy)
+            IF /\ ~o.gone /\ ~o.reset /\ ~o.tfail /\ ~o.cerr /\ ~o.shut /\ ~o.winddown /\ ~o.illegal /\ o.goaway = 0
+               /\ \E a \in DOMAIN o.apps :
+                     /\ Req(o, a).known /\ Req(o, a).kind = "http" /\ ~Req(o, a).bad /\ ~Req(o, a).rst
+                     /\ App(o, a).done = "" /\ App(o, a).sendExc = 0 /\ App(o, a).disc = 0
+                     /\ (App(o, a).rstart \/ App(o, a).parked = "send")
+                     /\ (~App(o, a).final \/ (Wire(o, a).ends = 0 /\ ~o.paused /\ Wire(o, a).framing # "close"))
+                     /\ \A b \in DOMAIN o.apps : App(o, b).done \in {"", "return"} /\ App(o, b).sendExc = 0
+            THEN <<F("response-cut", IF ParkedPipeline(o) THEN "pipelined-request-pending" ELSE o.cfg.carrier)>> ELSE <<>>
       [] ev.e = "app_ret" ->
             LET s == App(o, ev.app) IN
             IF ev.outcome # "ok" /\ Req(o, ev.app).known /\ (~Has(s.lastCall, "cls") \/ s.lastCall.cls = "ok")
